@@ -256,7 +256,7 @@ def parent_dict(rng, d):
     if d["start"] is not None:
         lo, hi = min(lo, d["start"]), max(hi, d["end"])
     from harness.gen_collections import genome
-    k = rng.choice(["none", "chrom", "chunk", "bare", "bare-untyped", "chrom-noid"])
+    k = rng.choice(["none", "chrom", "chunk", "chunk-minus", "chunk-minus", "bare", "bare-untyped", "chrom-noid"])
     L = G8.GENOME_LEN
     if k == "none":
         return None
@@ -267,6 +267,10 @@ def parent_dict(rng, d):
         cs, ce = rng.randint(0, lo), rng.randint(hi, L)
         return dict(seq=genome(L)[cs:ce], sequence_name="chr1", start=cs, end=ce, strand="PLUS",
                     alphabet="NT_EXTENDED_GAPPED", type=rng.choice(["SEQUENCE_CHUNK", "sequence_chunk"]))
+    if k == "chunk-minus":
+        cs, ce = rng.randint(0, lo), rng.randint(hi, L)
+        return dict(seq=G8.revcomp(genome(L)[cs:ce]), sequence_name="chr1", start=cs, end=ce, strand="MINUS",
+                    alphabet="NT_EXTENDED_GAPPED", type="SEQUENCE_CHUNK")
     if k == "bare":
         return dict(seq=None, sequence_name=rng.choice(["chr1", None]), start=None, end=None, strand=None,
                     alphabet=None, type="CHROMOSOME")
